@@ -124,6 +124,13 @@ fn scenario_ids(sc: &Scenario) {
                 for k in 0..adds {
                     got.push(g.add_node(k as i32));
                 }
+                // a copy of a graph (GRAPH.DUP) and its original both keep growing: the ids they
+                // receive afterwards are new ids too
+                let mut copy = g.clone();
+                let in_copy = copy.add_node(-3);
+                got.push(g.add_node(-4));
+                let in_copy2 = copy.add_node(-5);
+                all.lock().unwrap().push((t + 2000, vec![in_copy, in_copy2], vec![in_copy, in_copy2]));
                 keys = g.nodes.iter().map(|(k, _)| *k).collect();
                 got.retain(|id| keys.contains(id) || true);
                 // ids received for the scratch graph are checked for global uniqueness below;
